@@ -28,6 +28,11 @@ The oracle is the property itself on the real observation, independent of the mo
   values   reference interpretation of the trees (fully parenthesised Python over numpy scalars, symbol-list order,
            Gauss-Seidel; conditional expressions with comparisons / not / and / or: only the branch taken is read) against
            the real store after one _evaluate(t): values, exception, frame, access sequence.
+  shape    (every kind) CPython's ast of every ENDOGENOUS symbol's real code must be ONE assignment to that symbol's own cell with no
+           other binding in it (second target, `;`, comprehension / walrus target: evaluate|non-lhs-cell-written; none at all:
+           evaluate|nothing-assigned; a yield: evaluate|yield-makes-generator), no method call on a series cell (code|blank-in-dotted-name)
+           and no term rendered inside a string literal (code|term-inside-string-literal); corpus entries marked `probe` also run one real
+           pass on distinct data (what _evaluate returns, which series changed).  All five are kept findings.
   history  every case parses its script twice, emptying the list the first call returned: the second result must not change."""
 import ast
 import copy
@@ -69,7 +74,12 @@ ASSUMPTIONS = ['scripts are Latin-1', 'K_eval / the value oracle: decimal litera
                'subtrees of integer literals only (unary minus, + - *, abs, max, min) are computed on ints by the model as by CPython (fold_ints: -0 is 0); '
                'other operations CPython would perform on Python numbers alone (1/0, 2**3, -max(0, X) when the maximum is the int 0) are outside the '
                'value-level tie: evalmodel refuses them and K_eval skips the passes whose result depends on a non-constant Python int',
-               'the text-level tie covers statements whose matches do not span the first `=` and that have no brace outside a parameter']
+               'outside the subset, fail-closed (CodeGen.py_ok): an integer literal of more than 300 digits (OverflowError when it meets a NumPy scalar), a '
+               'division of Python numbers by a literal without a non-zero digit among its first 300 characters (0.<400 zeros>1 is 0.0: ZeroDivisionError), '
+               '+ - * and comparisons of two Python-int expressions beyond 2**53 (exact in CPython, rounded on floats), any power of two Python numbers',
+               'the text-level tie covers statements whose matches do not span the first `=` and that have no brace outside a parameter',
+               'the semantic theorems speak about scripts every statement of which is ONE assignment of the arithmetic / conditional subset; accepted statements '
+               'of another shape (second target, `;`, comparison statement, yield, split dotted name, term inside a string) are kept findings, found by the shape oracle']
 EXHAUSTIVE = {'quick': True, 'thorough': True}
 CASE_TIMEOUT = 30
 SOURCES = ['parser.py']
@@ -591,7 +601,11 @@ def gen_prog(rng):
             # 10 ** 400 raise OverflowError when evaluated / stored.  Outside the model's subset (K_pyast / K_eval have nothing to say);
             # the oracle compares the real pass with Python's own evaluation of the equation as written
             trap = rng.choice([['par', ['bin', '/', ['num', '1'], ['num', '0']]], ['bin', '**', ['num', '10.0'], ['num', '400']],
-                               ['bin', '**', ['num', '10'], ['num', '400']], ['par', ['bin', '/', ['num', '2.5'], ['par', ['bin', '-', ['num', '1'], ['num', '1']]]]]])
+                               ['bin', '**', ['num', '10'], ['num', '400']], ['par', ['bin', '/', ['num', '2.5'], ['par', ['bin', '-', ['num', '1'], ['num', '1']]]]],
+                               # an int literal no float can hold (OverflowError when it meets a NumPy scalar), a float literal that underflows to 0.0
+                               # (ZeroDivisionError), Python-int arithmetic beyond 2**53 (exact in CPython, rounded on floats)
+                               ['num', '1' + '0' * 400], ['par', ['bin', '/', ['num', '1'], ['num', '0.' + '0' * 400 + '1']]],
+                               ['par', ['bin', '*', ['num', '9007199254740993'], ['num', '3']]]])
             e = {'lhs': [y, k0], 'rhs': ['bin', rng.choice(['*', '+']), e['rhs'], trap]}
         eqs.append(e)
     rng.shuffle(eqs)
@@ -761,6 +775,9 @@ def fixed_cases():
     vb = prog_case(None, [{'lhs': ['Y', 0], 'rhs': ['bin', '+', V('X'), ['num', '1']]}, {'lhs': ['Z', 0], 'rhs': ['bin', '*', V('Y'), V('W')]}], n=2, t=1)
     out.append(mix_case(None, vb, [(0, ['W', 0, 'Y', 0, '2.0'])]))          # verbatim first: reads the Y of BEFORE the pass? no: it runs where the symbol list puts it
     out.append(mix_case(None, vb, [(1, ['X', 0, 'Y', -1, '0.5']), (2, ['Y', 0, 'Z', 0, '-1.0'])]))
+    # accepted statements that are not ONE assignment to the left-hand cell (reviewer2-B C01-3): known findings, each with a real pass
+    out += [dict(_raw(s), probe=True) for s in ('Y = Z = X', 'Y = X; Z = 1', 'Y = sum([X for i in range(3)])', 'Y == X', 'Z = (yield)\nY = X',
+                                                'Y = np .sqrt(X)', 'Y = np. sqrt(X)', "Y = X if S == 'W' else Z")]
     # rejected / degenerate scripts: no expectation, only the model ties speak (K_parse: same exception class as the model)
     out += [_raw(s) for s in ('2 = X', '{p} = X', 'Y = {0}', 'Y = }{', 'Y = {', 'Y = X[a]', 'Y = X[t]', 'if = 1', 'Y = X\nY = Z', 'Y = {X} + X', 'Y = X)',
                               'Y[ 1 ] = X', ' Y = X', '`x = 1`', '```\nx = 1\n```\nY = X', 'Y = X\n\n', '', 'Y = 2e5 * X', 'Y = a < b > c', 'Y = X.T',
@@ -838,6 +855,18 @@ def impl(case):
     except em.Unsupported as e:
         o['prog'] = 'untranslatable'
         o['why'] = str(e)[:80]
+    if case.get('probe'):       # raw corpus entry: one real pass on a 3-period model with distinct data -> what _evaluate returns, which series changed
+        try:
+            import numpy as np
+            m = Model(range(3))
+            for k, nm in enumerate(names):
+                m.__dict__['_' + nm][:] = np.arange(3.0) + 1 + k
+            before = em.snapshot(m, names)
+            ret = m._evaluate(1)
+            after = em.snapshot(m, names)
+            o['probe'] = {'ret': type(ret).__name__, 'changed': [nm for nm, a, b in zip(names, before, after) if a != b]}
+        except Exception as e:      # noqa: BLE001
+            o['probe'] = {'exc': type(e).__name__}
     if case['kind'] not in ('prog', 'mix'):
         return o
     n, t = case['n'], case['t']
@@ -871,6 +900,13 @@ PREAMBLE = (em.PREAMBLE + 'Require Import Fsic.CodeGen.CodeGen Fsic.CodeGen.Code
             'Open Scope string_scope.\nOpen Scope float_scope.\nOpen Scope Z_scope.\n')       # the imported files open nat_scope: Z on top again
 K_EVAL_CAP = {'quick': 1000, 'thorough': 8000}
 _DETAIL = {}
+
+
+def _py_refusal(o):
+    """evalmodel refused the real code because CPython computes part of it on Python numbers (division / power between literals, an integer
+    literal beyond 2**53): no float program to compare with"""
+    w = str(o.get('why', ''))
+    return 'Python' in w or 'beyond 2**53' in w
 
 
 def _unlit(j):
@@ -961,8 +997,8 @@ def correspond(cases, obs, tag, tier):
         if a == 'N' or real is None:
             # evalmodel refuses (fail-closed) what CPython computes on ints rather than floats beyond constant folding
             # (e.g. -max(0, X)): no reading of the real code to compare with
-            refused = real is None and 'Python' in str(o.get('why', ''))
-            if (a == 'N') != (real is None) and cases[i]['kind'] in ('prog', 'mix') and not refused:
+            refused = real is None and _py_refusal(o)
+            if (a == 'N') != (real is None) and cases[i]['kind'] in ('prog', 'mix') and not refused and not value_guard(cases[i]):
                 note(i, 'K_pyast', a[:300], real if real is not None else o.get('why', o.get('build_exc', o.get('compile_exc'))))
             continue
         j = json.loads(a[2:])
@@ -979,10 +1015,10 @@ def correspond(cases, obs, tag, tier):
         if model != obs[i]['block']:
             note(i, 'K_code', model[-400:], obs[i]['block'][-400:])
     # ---- K_eval
-    elig = [i for i in live if cases[i]['kind'] in ('prog', 'mix') and 'after' in obs[i] and not guard(cases[i], obs[i])]
+    elig = [i for i in live if cases[i]['kind'] in ('prog', 'mix') and 'after' in obs[i] and not value_guard(cases[i])]
     # the Coq model reads every literal as a float: a Python int zero has no sign (-0 is 0, 0 * -1 is 0), a float zero has
     elig = [i for i in elig if reference_pass(cases[i])[:2] == reference_pass(cases[i], floats=True)[:2]]
-    elig = [i for i in elig if not (obs[i]['prog'] == 'untranslatable' and 'Python' in str(obs[i].get('why', '')))]      # Python-number arithmetic: outside the model
+    elig = [i for i in elig if not (obs[i]['prog'] == 'untranslatable' and _py_refusal(obs[i]))]      # Python-number arithmetic: outside the model
     for i in list(elig):
         if obs[i]['exc'] not in (None, 'RuntimeWarning', 'IndexError') or obs[i]['prog'] == 'untranslatable':
             note(i, 'K_eval', 'not expressible', obs[i]['exc'] or obs[i].get('why'))
@@ -1045,6 +1081,11 @@ def eq_meaning(a, b):
 def guard(case, obs):
     """inside the class of a kept finding (#20 blank before an index bracket, brace outside a parameter, leading-underscore
     series name, term fused with a keyword): decided from the case alone"""
+    return False        # every tie stays live on every case; value_guard() below only keeps the VALUE ties off the planted defects
+
+
+def value_guard(case):
+    """the value-level ties (K_pyast's accept/refuse comparison, K_eval) have nothing to compare on a case planted inside a kept finding"""
     if case.get('f20') or case.get('fmangle'):
         return True
     if case['kind'] == 'raw':
@@ -1142,6 +1183,40 @@ def reference_pass(case, floats=False, order=None):
     return {nm: [lib.fhex(x) for x in row] for nm, row in store.items()}, exc, acc
 
 
+def stmt_defects(name, code):
+    """what the generated statement of the ENDOGENOUS symbol `name` does besides / instead of assigning self._NAME[...]: read off CPython's own
+    ast of the real Symbol.code (None: the code is not Python — verbatim soup under check_syntax=False).  The property: one evaluation
+    pass assigns each left-hand side the value of its right-hand side and writes only left-hand cells."""
+    try:
+        with warnings.catch_warnings():
+            warnings.simplefilter('ignore')
+            tree = ast.parse(code)
+    except (SyntaxError, ValueError, RecursionError, MemoryError):
+        return None
+    out = []
+    if any(isinstance(n, (ast.Yield, ast.YieldFrom, ast.Await)) for n in ast.walk(tree)):
+        out.append('evaluate|yield-makes-generator')
+
+    def own(n):
+        return (isinstance(n, ast.Subscript) and isinstance(n.value, ast.Attribute) and isinstance(n.value.value, ast.Name)
+                and n.value.value.id == 'self' and n.value.attr == '_' + name)
+    stores = [n for n in ast.walk(tree) if isinstance(getattr(n, 'ctx', None), ast.Store) and not
+              (isinstance(n, (ast.Tuple, ast.List)))]       # a tuple / list target is walked into
+    if not any(own(n) for n in stores):
+        out.append('evaluate|nothing-assigned')
+    if any(not own(n) for n in stores) or sum(1 for n in stores if own(n)) > 1:
+        out.append('evaluate|non-lhs-cell-written')
+    for n in ast.walk(tree):
+        f = n.func if isinstance(n, ast.Call) else None
+        if (isinstance(f, ast.Attribute) and isinstance(f.value, ast.Subscript) and isinstance(f.value.value, ast.Attribute)
+                and isinstance(f.value.value.value, ast.Name) and f.value.value.value.id == 'self' and f.value.value.attr.startswith('_')):
+            out.append('code|blank-in-dotted-name')         # self._np[t] .sqrt(...): a method call on a series cell
+            break
+    if any(isinstance(n, ast.Constant) and isinstance(n.value, str) and re.search(r'self\._\w+\[t', n.value) for n in ast.walk(tree)):
+        out.append('code|term-inside-string-literal')
+    return out
+
+
 def oracle(case, obs):
     fails = []
 
@@ -1174,6 +1249,26 @@ def oracle(case, obs):
             'call gave %s: results share state' % (obs['line'][:80], obs['line_first'][:80]))
     sym = {s[0]: s for s in obs['syms']}
     skip_values = False
+    # ---- every ENDOGENOUS symbol's statement is ONE assignment to its own cell and binds nothing else (any kind of case)
+    for sm in obs['syms']:
+        if sm[1] == 'ENDOGENOUS' and sm[3] is not None:
+            for sig in stmt_defects(sm[0], sm[3]) or []:
+                bad(sig, {'evaluate|yield-makes-generator': 'a `yield` in a statement turns _evaluate into a generator function: no equation of the model is evaluated any more',
+                          'evaluate|nothing-assigned': 'the statement of an ENDOGENOUS symbol does not assign its cell (a comparison `Y == X` has an `=`, so it is accepted as an equation)',
+                          'evaluate|non-lhs-cell-written': 'the statement writes a cell other than its left-hand one (chained assignment, `;`, a comprehension / walrus target): '
+                                                           'a variable classified EXOGENOUS is overwritten by the pass',
+                          'code|term-inside-string-literal': 'a name inside a quoted string is rewritten like a term (the string is not left verbatim) and declared as a series',
+                          'code|blank-in-dotted-name': 'a blank inside a dotted function name (`np .sqrt(X)`, legal Python) splits it: the first part becomes a series '
+                                                       '(self._np[t] .sqrt(...))'}[sig] + ': Symbol.code of %s is %r' % (sm[0], sm[3]))
+    pr = obs.get('probe')
+    if pr is not None:
+        if pr.get('ret') not in (None, 'NoneType'):
+            bad('evaluate|yield-makes-generator', '_evaluate(1) returned a %s instead of evaluating the equations' % pr['ret'])
+        endo = {sm[0] for sm in obs['syms'] if sm[1] == 'ENDOGENOUS'}
+        if [nm for nm in pr.get('changed', []) if nm not in endo]:
+            bad('evaluate|non-lhs-cell-written', '_evaluate(1) changed %s, which no equation defines (ENDOGENOUS: %s)' % ([nm for nm in pr['changed'] if nm not in endo], sorted(endo)))
+        if pr.get('exc') == 'AttributeError' and any('blank-in-dotted-name' in f['sig'] for f in fails):
+            pass        # the split name is read as a series cell: numpy.float64 has no attribute sqrt
     # ---- text level: Symbol.equation / Symbol.code of every statement's left-hand symbol
     if kind == 'raw':
         want = [(y, eq, code, False) for y, eq, code in case.get('expect', [])]
@@ -1304,7 +1399,7 @@ def nontrivial(case, obs):
                 if tk[0] in ('V', 'K') or (tk[0] == 'F' and tk[1] not in REPL) or (tk[0] == 'T' and (tk[2] in TRAP_NAMES or re.search(r'[+\s]|\d\d', tk[4]))):
                     return True
         return False
-    return 'expect' in case
+    return 'expect' in case or bool(case.get('probe'))
 
 
 _RANK = {'num': 0, 'var': 1, 'par': 1, 'neg': 2, 'bin': 3, 'call': 4, 'if': 5}
